@@ -165,7 +165,7 @@ func run(gitbug string, s Schedule) string {
 			case <-time.After(20 * time.Second):
 				_ = h.cmd.Process.Kill()
 				<-h.done
-				return fmt.Sprintf("step %d Close(%d): the holder did not exit on SIGINT", i+1, st.H)
+				return fmt.Sprintf("DRIVER: step %d Close(%d): the holder did not exit within 20 s of SIGINT", i+1, st.H)
 			}
 			deadPid[st.H] = h.cmd.Process.Pid
 			holders[st.H] = nil
